@@ -101,6 +101,18 @@ func (p *Program) Source() string {
 	return sb.String()
 }
 
+func isPlainIdent(s string) bool {
+	if s == "" {
+		return false
+	}
+	for i, r := range s {
+		if !(r == '_' || (r >= 'a' && r <= 'z') || (r >= 'A' && r <= 'Z') || (i > 0 && r >= '0' && r <= '9')) {
+			return false
+		}
+	}
+	return true
+}
+
 func ind(n int) string { return strings.Repeat("  ", n) }
 
 func printStmt(sb *strings.Builder, n *N, depth int) {
@@ -334,7 +346,11 @@ func printExpr(sb *strings.Builder, n *N, depth int) {
 	case KErrNew:
 		fmt.Fprintf(sb, "%s.new(%q)", n.Str, n.Msg)
 	case KNat:
-		sb.WriteString("(" + n.Names[0] + ")")
+		if isPlainIdent(n.Names[0]) {
+			sb.WriteString(n.Names[0]) // a bare name stays bare (argument and operand positions treat names specially)
+		} else {
+			sb.WriteString("(" + n.Names[0] + ")")
+		}
 	case KFunc:
 		if n.Method {
 			sb.WriteString("m")
